@@ -243,6 +243,39 @@ type x06World struct {
 	seq    int64
 	plumb  int64
 	cert   []tls.Certificate
+	px     []*HTTPProxy
+}
+
+// x06FDs counts the open file descriptors of the process (the proxies, the upstreams and the clients all
+// live in it and share one limit).
+func x06FDs() int {
+	d, err := os.ReadDir("/proc/self/fd")
+	if err != nil {
+		return 0
+	}
+	return len(d)
+}
+
+// relax releases the idle upstream connections the proxies keep (15 s idle timeout) and waits until the
+// process has descriptors to spare; false = it has not: the run cannot go on (never a verdict).
+func (w *x06World) relax() bool {
+	var lim syscall.Rlimit
+	if syscall.Getrlimit(syscall.RLIMIT_NOFILE, &lim) != nil || lim.Cur == 0 {
+		return true
+	}
+	for i := 0; ; i++ {
+		for _, p := range w.px {
+			p.Transport.(*http.Transport).CloseIdleConnections()
+			p.InsecureTransport.(*http.Transport).CloseIdleConnections()
+		}
+		if n := x06FDs(); uint64(n) < lim.Cur/3 {
+			return true
+		} else if i >= 100 {
+			w.oracle("the process keeps %d of %d file descriptors open: %s", n, lim.Cur, x06FDReport(w))
+			return false
+		}
+		time.Sleep(100 * time.Millisecond)
+	}
 }
 
 type x06LogSink struct{ w *x06World }
@@ -312,6 +345,7 @@ func x06NewWorld(t *testing.T) *x06World {
 				if err != nil {
 					t.Fatal(err)
 				}
+				w.px = append(w.px, p)
 				h := http.HandlerFunc(func(rw http.ResponseWriter, r *http.Request) {
 					id := r.Header.Get(x06IDHeader)
 					defer func() {
@@ -370,7 +404,8 @@ type x06Target struct {
 	ln   net.Listener
 	fd   int // refused target: a bound socket that does not listen
 	cur  atomic.Pointer[x06Run]
-	wg   sync.WaitGroup
+	cmu  sync.Mutex
+	conn []net.Conn // every connection accepted, closed with the target
 }
 
 // x06Refuser binds a port without listening on it: every connection attempt is refused and the
@@ -405,6 +440,12 @@ func x06Listen(tc *tls.Config) (*x06Target, error) {
 func (t *x06Target) close() {
 	if t.ln != nil {
 		t.ln.Close()
+		t.cmu.Lock()
+		for _, c := range t.conn {
+			c.Close()
+		}
+		t.conn = nil
+		t.cmu.Unlock()
 	} else if t.fd >= 0 {
 		syscall.Close(t.fd)
 	}
@@ -416,6 +457,9 @@ func (t *x06Target) acceptLoop() {
 		if err != nil {
 			return
 		}
+		t.cmu.Lock()
+		t.conn = append(t.conn, c)
+		t.cmu.Unlock()
 		go t.serve(c)
 	}
 }
@@ -574,19 +618,46 @@ func (r *x06Run) upClose(reset bool) {
 
 type x06Client struct {
 	tr     *http.Transport
+	conns  *x06Conns
 	cancel context.CancelFunc
 	done   chan struct{}
 }
 
-func x06Transport(front string) *http.Transport {
+// x06Conns remembers the TCP connections a client transport opened so that they can be closed for certain
+// (an HTTP/2 connection whose stream was cancelled a moment ago does not count as idle yet and would stay).
+type x06Conns struct {
+	mu sync.Mutex
+	cs []net.Conn
+}
+
+func (x *x06Conns) closeAll() {
+	x.mu.Lock()
+	for _, c := range x.cs {
+		c.Close()
+	}
+	x.cs = nil
+	x.mu.Unlock()
+}
+
+func x06Transport(front string) (*http.Transport, *x06Conns) {
+	conns := &x06Conns{}
 	tr := &http.Transport{DisableCompression: true, DisableKeepAlives: false, MaxIdleConnsPerHost: 2,
-		TLSClientConfig: &tls.Config{InsecureSkipVerify: true}}
+		TLSClientConfig: &tls.Config{InsecureSkipVerify: true},
+		DialContext: func(ctx context.Context, network, addr string) (net.Conn, error) {
+			c, err := (&net.Dialer{}).DialContext(ctx, network, addr)
+			if err == nil {
+				conns.mu.Lock()
+				conns.cs = append(conns.cs, c)
+				conns.mu.Unlock()
+			}
+			return c, err
+		}}
 	if front == "h2" {
 		tr.ForceAttemptHTTP2 = true
 	} else {
 		tr.TLSClientConfig.NextProtos = []string{"http/1.1"}
 	}
-	return tr
+	return tr, conns
 }
 
 func (w *x06World) url(h *x06Hist, front string) string {
@@ -600,7 +671,8 @@ func (w *x06World) url(h *x06Hist, front string) string {
 // start sends the request and reads whatever comes, as it comes.
 func (r *x06Run) startClient(front, path string) *x06Client {
 	ctx, cancel := context.WithCancel(context.Background())
-	cl := &x06Client{tr: x06Transport(front), cancel: cancel, done: make(chan struct{})}
+	tr, conns := x06Transport(front)
+	cl := &x06Client{tr: tr, conns: conns, cancel: cancel, done: make(chan struct{})}
 	req, _ := http.NewRequestWithContext(ctx, "GET", r.w.url(r.h, front)+path, nil)
 	req.Header.Set(x06IDHeader, r.id)
 	if r.h.Sc.Sse {
@@ -690,12 +762,14 @@ func (cl *x06Client) goAway(r *x06Run) {
 	cl.cancel()
 	<-cl.done
 	cl.tr.CloseIdleConnections()
+	cl.conns.closeAll()
 }
 
 func (cl *x06Client) finish() {
 	cl.cancel()
 	<-cl.done
 	cl.tr.CloseIdleConnections()
+	cl.conns.closeAll()
 }
 
 // ---------------------------------------------------------------- lock-step replay of one history
@@ -720,7 +794,7 @@ func x06ChooseUp(h *x06Hist, n int64) string {
 	if h.Up != "" {
 		return h.Up
 	}
-	if (uint64(n)>>9)%4 == 0 {
+	if (uint64(n)>>9+uint64(verifx.EnvInt("VERIF_X06_ROT", 0)))%4 == 0 {
 		return "tls"
 	}
 	return "tcp"
@@ -750,7 +824,7 @@ func x06ChooseFront(h *x06Hist, n int64) string {
 	if h.Front != "" {
 		return h.Front
 	}
-	return []string{"plain", "tls", "h2"}[int(uint64(n)%3)]
+	return []string{"plain", "tls", "h2"}[int((uint64(n)+uint64(verifx.EnvInt("VERIF_X06_ROT", 0)))%3)]
 }
 
 func (w *x06World) newRun(h *x06Hist) *x06Run {
@@ -994,7 +1068,8 @@ func x06Allowed(a, b int) string {
 }
 
 func (w *x06World) other(r *x06Run, front, path string) {
-	tr := x06Transport(front)
+	tr, conns := x06Transport(front)
+	defer conns.closeAll()
 	defer tr.CloseIdleConnections()
 	c := &http.Client{Transport: tr, Timeout: 30 * time.Second}
 	r.ev(map[string]any{"ev": "OtherStart"})
@@ -1049,6 +1124,10 @@ func TestVerifX06Replay(t *testing.T) {
 		if end > len(hs) {
 			end = len(hs)
 		}
+		if !w.relax() {
+			atomic.AddInt64(&skipped, int64(len(hs)-base))
+			break
+		}
 		// targets and table of this batch
 		tgs := make([]*x06Target, end-base)
 		var cmds []string
@@ -1083,7 +1162,7 @@ func TestVerifX06Replay(t *testing.T) {
 					if h.Up == "tls" {
 						atomic.AddInt64(&upTLS, 1)
 					}
-					if atomic.LoadInt64(&timedOut) > 40 {
+					if atomic.LoadInt64(&timedOut) > 24 {
 						atomic.AddInt64(&skipped, 1) // enough missed deadlines to report; do not sit out the rest
 						continue
 					}
@@ -1109,6 +1188,20 @@ func TestVerifX06Replay(t *testing.T) {
 							break
 						}
 						prev = f
+					}
+					if len(faults) > 0 {
+						var lim syscall.Rlimit
+						if syscall.Getrlimit(syscall.RLIMIT_NOFILE, &lim) == nil && uint64(x06FDs()) > lim.Cur*3/4 {
+							w.oracle("history %d: faults while the process is short of file descriptors (%d of %d) are not judged: %s", i, x06FDs(), lim.Cur, faults[0].Msg)
+							faults = nil
+						}
+					}
+					for _, f := range faults {
+						if strings.Contains(f.Msg, "too many open files") {
+							w.oracle("history %d: the process ran out of file descriptors: %s", i, f.Msg)
+							faults = nil
+							break
+						}
 					}
 					if faults == nil && prev != nil {
 						w.oracle("history %d: a fault did not persist over the attempts: %s", i, prev[0].Msg)
@@ -1351,4 +1444,48 @@ func TestVerifX06Probe(t *testing.T) {
 	}
 	verifx.Emit(map[string]any{"kind": "probe", "partial_hdr_status": partial, "seen": fmt.Sprint(seen)})
 	verifx.Summary(map[string]any{"probed": 4})
+}
+
+
+// x06FDReport says what the open sockets of the process are (diagnostics for a descriptor shortage).
+func x06FDReport(w *x06World) string {
+	inodes := map[string]bool{}
+	d, _ := os.ReadDir("/proc/self/fd")
+	other := 0
+	for _, e := range d {
+		l, err := os.Readlink("/proc/self/fd/" + e.Name())
+		if err == nil && strings.HasPrefix(l, "socket:[") {
+			inodes[strings.TrimSuffix(strings.TrimPrefix(l, "socket:["), "]")] = true
+		} else {
+			other++
+		}
+	}
+	fronts := map[string]string{}
+	for k, f := range w.fronts {
+		_, p1, _ := net.SplitHostPort(f.plain.Listener.Addr().String())
+		_, p2, _ := net.SplitHostPort(f.tls.Listener.Addr().String())
+		fronts[p1], fronts[p2] = fmt.Sprintf("front-plain(%s,%s,%v)", k.f, k.g, k.rht), fmt.Sprintf("front-tls(%s,%s,%v)", k.f, k.g, k.rht)
+	}
+	counts := map[string]int{}
+	b, _ := os.ReadFile("/proc/net/tcp")
+	for _, ln := range strings.Split(string(b), "\n")[1:] {
+		f := strings.Fields(ln)
+		if len(f) < 10 || !inodes[f[9]] {
+			continue
+		}
+		port := func(a string) string {
+			i := strings.IndexByte(a, ':')
+			n, _ := strconv.ParseInt(a[i+1:], 16, 32)
+			return strconv.Itoa(int(n))
+		}
+		lp, rp := port(f[1]), port(f[2])
+		role := "other"
+		if n, ok := fronts[lp]; ok {
+			role = "server-side of " + n[:strings.IndexByte(n, '(')]
+		} else if n, ok := fronts[rp]; ok {
+			role = "client-side of " + n[:strings.IndexByte(n, '(')]
+		}
+		counts["state "+f[3]+" "+role]++
+	}
+	return fmt.Sprintf("%d sockets, %d other; %v", len(inodes), other, counts)
 }
